@@ -182,6 +182,7 @@ def state_diff(a, b, path="", out=None, depth=0):
 
 def correction_events(darsia, rng, work, reps):
     ev = []
+    alive = []
     for rep in range(reps):
         H, W = rng.randint(5, 8), rng.randint(5, 8)
         rs = np.random.RandomState(rng.randrange(10 ** 6))
@@ -223,10 +224,26 @@ def correction_events(darsia, rng, work, reps):
                 e["rcls"] = type(back).__name__
                 e["state_diff"] = state_diff(vars(c), vars(back))[:6]
                 e["same_output"] = int(o1.shape == o2.shape and o1.dtype == o2.dtype and np.array_equal(o1, o2))
+                alive.append((e, c, back, inp))
             except Exception as ex:  # noqa
                 e["raised"] = 1
                 e["error"] = repr(ex)[:200]
             ev.append(e)
+    # every reloaded correction is kept and applied once more after all the others have been reloaded and used: it still is
+    # the correction it was saved from (reloaded objects of one class are independent of one another)
+    for (e, c, back, inp) in alive:
+        try:
+            with contextlib.redirect_stdout(io.StringIO()), warnings.catch_warnings():
+                warnings.simplefilter("ignore")
+                o1 = np.asarray(c.correct_array(inp.copy()))
+                o2 = np.asarray(back.correct_array(inp.copy()))
+            if not (o1.shape == o2.shape and o1.dtype == o2.dtype and np.array_equal(o1, o2)):
+                e["same_output"] = 0
+            if state_diff(vars(c), vars(back)):
+                e["state_diff"] = (e["state_diff"] + state_diff(vars(c), vars(back)))[:6]
+        except Exception as ex:  # noqa
+            e["raised"] = 1
+            e["error"] = "later application: " + repr(ex)[:180]
     return ev
 
 
